@@ -442,9 +442,9 @@ func ruleStatusFlow(c *Ctx, rule string) {
 		how := "Status = status.FromError(err).Proto() with err the finishing function's parameter"
 		if ok && !good {
 			// ... or the error latched by the FIRST call of the finishing function (CAS(nil, {err}) then Load)
-			if cas, fr, isL := latchedFinishErr(a.ServerFinish, errArg); isL {
+			if cas, fr, isL := w.latchedFinishErr(a.ServerFinish, errArg); isL {
 				good = true
-				how = "Status = status.FromError(first).Proto() with first the parameter latched once in " + fr.String() + " by the compare-and-swap at " + w.At(cas)
+				how = "Status = status.FromError(first).Proto() with first the parameter latched once in " + fr.String() + " at " + w.At(cas)
 			}
 		}
 		c.check(good, rule, key+": Status is the finishing error's status", w.At(e.Alloc), how, "close_stream Status is "+desc(e.Payload["CloseStream.Status"])+": the caller would not see exactly the status the handler returned (code, message and details)")
@@ -1332,9 +1332,15 @@ func ruleServerCancel(c *Ctx, rule4, rule7 string) {
 	}
 }
 
-// latchedFinishErr: v is F.Load().<err> for an atomic pointer field F of the receiver, and fin contains
-// F.CompareAndSwap(nil, &holder{<fin's error parameter>}) dominating that load: v is the error of the first call.
-func latchedFinishErr(fin *ssa.Function, v ssa.Value) (*ssa.Call, FieldRef, bool) {
+// latchedFinishErr: v is the error of the FIRST call of the finishing function. Accepted idioms:
+//
+//	A: F.CompareAndSwap(nil, &holder{err}); v = F.Load().<err>
+//	B: h := &holder{err}; if !F.CompareAndSwap(nil, h) { h = F.Load() }; v = h.<err>
+//	C: once.Do(func() { st.E = err }); v = st.E          (E written nowhere else)
+//
+// with F an atomic pointer field / once a sync.Once field of the receiver and err the function's error parameter.
+// Returns the latching instruction (the CAS or the Do call).
+func (w *World) latchedFinishErr(fin *ssa.Function, v ssa.Value) (ssa.Instruction, FieldRef, bool) {
 	ld, ok := origin(v).(*ssa.UnOp)
 	if !ok || ld.Op != token.MUL {
 		return nil, FieldRef{}, false
@@ -1343,27 +1349,23 @@ func latchedFinishErr(fin *ssa.Function, v ssa.Value) (*ssa.Call, FieldRef, bool
 	if !ok {
 		return nil, FieldRef{}, false
 	}
-	load, ok := fa.X.(*ssa.Call)
-	if !ok || !isAtomicPointerMethod(load, "Load") || len(load.Call.Args) < 1 {
-		return nil, FieldRef{}, false
+	// the CAS calls of fin that latch the parameter
+	type casInfo struct {
+		call  *ssa.Call
+		field FieldRef
+		alloc *ssa.Alloc
 	}
-	fr, _, ok := fieldOfAddr(load.Call.Args[0])
-	if !ok {
-		return nil, FieldRef{}, false
-	}
-	var found *ssa.Call
+	var cass []casInfo
 	allInstrs(fin, func(in ssa.Instruction) {
 		cas, isC := in.(*ssa.Call)
-		if !isC || !isAtomicPointerMethod(cas, "CompareAndSwap") || len(cas.Call.Args) != 3 {
+		if !isC || !isAtomicPointerMethod(cas, "CompareAndSwap") || len(cas.Call.Args) != 3 || !isNilConst(cas.Call.Args[1]) {
 			return
 		}
-		if f2, _, ok2 := fieldOfAddr(cas.Call.Args[0]); !ok2 || f2 != fr {
+		fr, _, ok2 := fieldOfAddr(cas.Call.Args[0])
+		if !ok2 {
 			return
 		}
-		if !isNilConst(cas.Call.Args[1]) {
-			return
-		}
-		al, isA := stripConv(cas.Call.Args[2]).(*ssa.Alloc)
+		al, isA := origin(cas.Call.Args[2]).(*ssa.Alloc)
 		if !isA {
 			return
 		}
@@ -1371,17 +1373,131 @@ func latchedFinishErr(fin *ssa.Function, v ssa.Value) (*ssa.Call, FieldRef, bool
 		for _, r := range *al.Referrers() {
 			if fad, isF := r.(*ssa.FieldAddr); isF {
 				for _, r2 := range *fad.Referrers() {
-					if st, isS := r2.(*ssa.Store); isS && st.Addr == ssa.Value(fad) && len(fin.Params) > 1 && paramAtEntry(fin, st.Val, st) {
+					if st, isS := r2.(*ssa.Store); isS && st.Addr == ssa.Value(fad) && len(fin.Params) > 1 && paramAtEntry(fin, st.Val, st) && dominates(st, cas) {
 						holdsParam = true
 					}
 				}
 			}
 		}
-		if holdsParam && load.Parent() == fin && dominates(cas, load) {
-			found = cas
+		if holdsParam {
+			cass = append(cass, casInfo{cas, fr, al})
 		}
 	})
-	return found, fr, found != nil
+	isLoadOf := func(x ssa.Value, ci casInfo) bool {
+		load, ok := x.(*ssa.Call)
+		if !ok || !isAtomicPointerMethod(load, "Load") || len(load.Call.Args) < 1 || load.Parent() != fin {
+			return false
+		}
+		fr, _, ok := fieldOfAddr(load.Call.Args[0])
+		return ok && fr == ci.field && dominates(ci.call, load)
+	}
+	for _, ci := range cass {
+		// A
+		if isLoadOf(fa.X, ci) {
+			return ci.call, ci.field, true
+		}
+		// B
+		if phi, isPhi := fa.X.(*ssa.Phi); isPhi {
+			good := len(phi.Edges) > 0
+			for i, e := range phi.Edges {
+				pred := phi.Block().Preds[i]
+				switch {
+				case isLoadOf(e, ci):
+				case e == ssa.Value(ci.alloc):
+					// only on the edge where the compare-and-swap succeeded
+					okEdge := false
+					facts := []EdgeFact{}
+					if ef, has := edgeFact(pred, phi.Block()); has {
+						facts = append(facts, ef)
+					}
+					facts = append(facts, factsAt(pred.Instrs[len(pred.Instrs)-1])...)
+					for _, f := range facts {
+						if origin(f.Cond) == ssa.Value(ci.call) && f.True {
+							okEdge = true
+						}
+					}
+					if !okEdge {
+						good = false
+					}
+				default:
+					good = false
+				}
+			}
+			if good {
+				return ci.call, ci.field, true
+			}
+		}
+	}
+	// C: sync.Once
+	fr, base, isF := fieldOfAddr(fa)
+	if !isF || len(fin.Params) == 0 || origin(base) != ssa.Value(fin.Params[0]) {
+		return nil, FieldRef{}, false
+	}
+	var do ssa.Instruction
+	var body *ssa.Function
+	allInstrs(fin, func(in ssa.Instruction) {
+		call, isC := in.(*ssa.Call)
+		if !isC || calleeName(call) != "(*sync.Once).Do" || len(call.Call.Args) != 2 || !dominates(call, ld) {
+			return
+		}
+		mc, isM := call.Call.Args[1].(*ssa.MakeClosure)
+		if !isM {
+			return
+		}
+		cf := mc.Fn.(*ssa.Function)
+		allInstrs(cf, func(x ssa.Instruction) {
+			st, isS := x.(*ssa.Store)
+			if !isS {
+				return
+			}
+			if f2, _, ok2 := fieldOfAddr(st.Addr); ok2 && f2 == fr {
+				if p, isP := origin(st.Val).(*ssa.Parameter); isP && len(fin.Params) > 1 && p == fin.Params[1] {
+					do, body = call, cf
+				}
+				// the parameter captured by reference (it is reassigned after the latch): the only store to its
+				// cell that can have happened before the Do call is the initial one
+				if u, isU := stripConv(st.Val).(*ssa.UnOp); isU && u.Op == token.MUL {
+					if fv, isFV := u.X.(*ssa.FreeVar); isFV {
+						if cell, isCell := freeVarBinding(fv).(*ssa.Alloc); isCell && len(fin.Params) > 1 {
+							n, good := 0, false
+							for _, r := range *cell.Referrers() {
+								if cs, isCS := r.(*ssa.Store); isCS && cs.Addr == ssa.Value(cell) {
+									if dominates(call, cs) && !reaches(cs, call) {
+										continue // strictly after the Do call
+									}
+									n++
+									good = stripConv(cs.Val) == ssa.Value(fin.Params[1]) && dominates(cs, call)
+								}
+							}
+							if n == 1 && good {
+								do, body = call, cf
+							}
+						}
+					}
+				}
+			}
+		})
+	})
+	if do == nil {
+		return nil, FieldRef{}, false
+	}
+	for _, fn := range w.Funcs {
+		if fn == body {
+			continue
+		}
+		other := false
+		allInstrs(fn, func(x ssa.Instruction) {
+			if st, isS := x.(*ssa.Store); isS {
+				if f2, _, ok2 := fieldOfAddr(st.Addr); ok2 && f2 == fr {
+					other = true
+				}
+			}
+		})
+		if other {
+			return nil, FieldRef{}, false
+		}
+	}
+	return do, fr, true
 }
 
 // paramAtEntry: v, read at `at`, is the finishing function's error parameter as passed by the caller.
@@ -1444,7 +1560,7 @@ func ruleOutcomeLatched(c *Ctx, rule string) {
 			c.ok(rule, key, w.At(e.Alloc), "the context is not cancelled before the outcome is committed (no early cancel in the finishing function)")
 			continue
 		}
-		cas, fr, isL := latchedFinishErr(fin, errArg)
+		cas, fr, isL := w.latchedFinishErr(fin, errArg)
 		good := isL
 		if isL {
 			for _, cn := range cancels {
@@ -1457,7 +1573,7 @@ func ruleOutcomeLatched(c *Ctx, rule string) {
 		if isL {
 			msg = "the status is latched in " + fr.String() + " but not before every early cancel of the stream context"
 		}
-		c.check(good, rule, key, w.At(e.Alloc), "latched in "+fr.String()+" by compare-and-swap from nil ("+posOfInstr(w, cas)+") before the context is cancelled", msg)
+		c.check(good, rule, key, w.At(e.Alloc), "latched once in "+fr.String()+" ("+posOfInstr(w, cas)+") before the context is cancelled", msg)
 	}
 	c.floor(rule, n, 1, "close_stream emit sites in the finishing function")
 }
